@@ -265,3 +265,24 @@ def find_cycle(edges):
             if r:
                 return r
     return None
+
+
+def rule_command_channels(ctx, R):
+    """submitting work never blocks: every channel that carries COMMANDS to a worker (store workers, voting threads) is
+    unbounded.  The blocking analysis (R06.2) treats a command send as non-blocking; with a bounded command channel the
+    submitting thread can block in `send` while the worker it waits for is itself blocked on the bounded(1) result
+    channel whose only reader is that same submitting thread - a wait cycle for batches with enough scenes."""
+    n = 0
+    for b in ctx.F.all_bodies():
+        for c in b.find_calls():
+            if c.name in ('bounded', 'unbounded') and 'channel' in c.callee:
+                ty = b.locals[c.dest['l']]
+                if 'Commands' not in ty.split('Receiver')[0]:
+                    continue
+                n += 1
+                ctx.read(b)
+                ctx.check(c.name == 'unbounded', R, b, 'command-channel-unbounded:' + ty.split('Sender<')[1].split('>')[0].split('<')[0].rsplit('::', 1)[-1],
+                          c.name, 'the channel that carries %s to a worker is created with %s(..): a submission can block '
+                          'while results are only read by the submitting thread afterwards (deadlock for large batches)'
+                          % (ty.split('Sender<')[1].split(',')[0][:60], c.name), c.ln)
+    return n
